@@ -236,40 +236,54 @@ theorem RInv.manualSet {s : State} (h : RInv s) (v : Val) : RInv (manualSet s v)
 
 /-! ## the derived's task -/
 
+/-- the state in which the result of the fetch is consumed (task ids dropped, `pc` back at the loop) -/
+def doneState (s : State) : State :=
+  { s with
+    pending := s.pending - s.idsHeld, idsHeld := 0, curStatus := .done, pc := .waiting, dataReg := false }
+
+theorem applyResult_eq (s : State) : Async.applyResult s =
+    if s.version = s.fetchVersion then
+      notifySubs { postReads (doneState s) with
+        value := some (fetchFn (postReads (doneState s)).curInputs), manualLive := false }
+    else postReads (doneState s) := by
+  simp [Async.applyResult, doneState]
+
 theorem RInv.applyResult {s : State} (h : RInv s) (hpc : s.pc = .fetching) (hf : s.firstRun = false)
     (hv : s.version = s.fetchVersion) : RInv (Async.applyResult s) := by
   obtain ⟨q1, q2, q3⟩ := h
-  dsimp only [Async.applyResult]
-  rw [if_pos (by simpa using hv)]
+  rw [applyResult_eq, if_pos hv]
   refine RInv.of_same ?_ (notifySubs_sameRun _)
   by_cases hvm : s.viaMemo = true
-  · refine ⟨?_, ?_, ?_⟩ <;> intro hv' <;> simp [hvm] at hv'
+  · refine ⟨?_, ?_, ?_⟩ <;> intro hv' <;> simp [hvm, doneState] at hv'
   · have hvm' : s.viaMemo = false := by simpa using hvm
-    have hrun : (postReads { s with pending := s.pending - s.idsHeld, idsHeld := 0, curStatus := .done,
-        pc := .waiting, dataReg := false }).run = Run.execAll s.src s.fx.post s.run := by
-      simp [postReads, hvm']
-    have hsub : (postReads { s with pending := s.pending - s.idsHeld, idsHeld := 0, curStatus := .done,
-        pc := .waiting, dataReg := false }).dSub = s.dSub ++ (Run.execAll s.src s.fx.post s.run).log.map (·.1) := by
-      simp [postReads, hvm']
-    have hcur : (postReads { s with pending := s.pending - s.idsHeld, idsHeld := 0, curStatus := .done,
-        pc := .waiting, dataReg := false }).curInputs = (Run.execAll s.src s.fx.post s.run).vals := by
-      simp [postReads, hvm']
+    have hrun : (postReads (doneState s)).run = Run.execAll s.src s.fx.post s.run := by
+      simp [postReads, doneState, hvm']
+    have hsub : (postReads (doneState s)).dSub = s.dSub ++ (Run.execAll s.src s.fx.post s.run).log.map (·.1) := by
+      simp [postReads, doneState, hvm']
+    have hcur : (postReads (doneState s)).curInputs = (Run.execAll s.src s.fx.post s.run).vals := by
+      simp [postReads, doneState, hvm']
     refine ⟨?_, ?_, ?_⟩
     · intro _ p hp
       simp only [hrun, hsub] at hp ⊢
       exact List.mem_append_right _ (List.mem_map_of_mem hp)
     · intro _ hc
-      simp only [postReads_dstate] at hc
+      have hc' : s.dstate = .clean := by simpa [doneState] using hc
       refine ⟨fun _ => ?_, fun hw => ?_⟩
-      · simp only [hrun, hcur, postReads_src, postReads_fx]
-        have hr := (q2 hvm' hc).2 (by simp [hpc])
-        refine ⟨?_, fun _ => rfl⟩
-        rw [Run.execAll_append, ← hr]
+      · have hr := (q2 hvm' hc').2 (by simp [hpc])
+        refine ⟨?_, fun _ => ?_⟩
+        · show (postReads (doneState s)).run = Run.execAll (postReads (doneState s)).src
+            ((postReads (doneState s)).fx.sync ++ (postReads (doneState s)).fx.post) {}
+          rw [hrun, postReads_src, postReads_fx, Run.execAll_append]
+          simp only [doneState]
+          rw [← hr]
+        · show some (fetchFn (postReads (doneState s)).curInputs) = some (fetchFn (postReads (doneState s)).run.vals)
+          rw [hcur, hrun]
       · exfalso
         apply hw
-        simp [hf]
+        simp [hf, doneState]
     · intro _
-      simp only [hrun, hcur]
+      show (postReads (doneState s)).curInputs = (postReads (doneState s)).run.vals
+      rw [hcur, hrun]
 
 theorem RInv.toFetch {s : State} (h : RInv s) (hm : Mid s) : RInv (fetchState s) := by
   obtain ⟨q1, q2, q3⟩ := h
@@ -341,6 +355,7 @@ theorem RInv.pollD {s : State} (h : RInv s) (hi : Inv s) : RInv (pollD s) := by
     refine RInv.dLoop 3 ?_ (hi.midStart hpc)
     obtain ⟨q1, q2, q3⟩ := h
     have hfr := (hi.dr.r3 hpc).2.2.1
+    show RInv (enterStart s)
     unfold enterStart
     split
     · rename_i hd
